@@ -147,6 +147,22 @@ theorem C09_code_compaction_order (needLevel : Bool) (lnT : Nat) (ln1 : List Nat
   · rw [LevelTie.compactLN_table]; rfl
   · rw [LevelTie.compactLN_table]; rfl
 
+
+/-- … and the same for `levelManager.compactL0` (translated on every run): level 1 is read and merged before level 0, the
+    output is named while the inputs are listed, it is written before any input file is removed, a failed write removes nothing -/
+theorem C09_code_compaction_order_L0 (needLevel : Bool) (l0 l1 : List Nat) (newIdx : Nat) :
+    GenLevel.compactL0 needLevel l0 l1 newIdx false [] =
+      some (l1 ++ l0,
+        (if needLevel then [("new level", 0)] else []) ++ (l1.map fun e => ("fetch L1", e)) ++ (l0.map fun e => ("fetch L0", e)) ++
+        [("MergeVersions", l1.length + l0.length), ("discardStaleEntries", 0), ("filter.Build", 0), ("table.Build", 0),
+         ("name := maxLevelIdx(L1)+1", newIdx), ("PushBack L1", newIdx)] ++
+        (l0.map fun e => ("Remove handle L0", e)) ++ (l1.map fun e => ("Remove handle L1", e)) ++ [("writeTable L1", newIdx)] ++
+        (l0.map fun e => ("os.Remove L0", e)) ++ (l1.map fun e => ("os.Remove L1", e))) ∧
+    GenLevel.compactL0 needLevel l0 l1 newIdx true [] = none := by
+  constructor
+  · rw [LevelTie.compactL0_table]; rfl
+  · rw [LevelTie.compactL0_table]; rfl
+
 #print axioms C09_preserves
 #print axioms C09_only_shadowed
 #print axioms C09_no_invention
@@ -156,4 +172,5 @@ theorem C09_code_compaction_order (needLevel : Bool) (lnT : Nat) (ln1 : List Nat
 #print axioms C09_code_discard_allowed
 #print axioms C09_code_preserves
 #print axioms C09_code_compaction_order
+#print axioms C09_code_compaction_order_L0
 end Props
